@@ -116,7 +116,7 @@ func checkC04(sc *Scenario) *CheckResult {
 		res.class("passthrough")
 		return res
 	}
-	if view.ReadErr != "" || len(view.Msgs) < len(out.Sent.Msgs) {
+	if requestFailed(view, out) {
 		// the request itself failed: the client sees that error, not the backend's script
 		res.class("request_failed")
 		return res
